@@ -33,7 +33,8 @@ def _job(args):
     if ob_filter:
         import re
         rep.obligations = [o for o in rep.obligations if re.search(ob_filter, o.name)]
-    res = solve.discharge(rep.obligations, timeout_ms=timeout_ms, procs=1, quick_ms=min(timeout_ms, 4000))
+    tmo = max(timeout_ms, getattr(c, "timeout_ms", 0))
+    res = solve.discharge(rep.obligations, timeout_ms=tmo, procs=1, quick_ms=min(tmo, 4000))
     out["solve_s"] = time.time() - t1
     for r in res:
         d = {"name": r.name, "status": r.status, "backend": r.backend, "time_s": round(r.time_s, 4),
@@ -53,7 +54,7 @@ def _solve_serial(obs, timeout_ms):
     return solve.discharge(obs, timeout_ms=timeout_ms, procs=1)
 
 
-def run_contracts(interp, contracts, select, timeout_ms=10000, procs=None, prefix="", ob_filter=None):
+def run_contracts(interp, contracts, select, timeout_ms=10000, procs=None, prefix="", ob_filter=None, tier="thorough"):
     """select: predicate on Contract.  Returns list of job outputs."""
     _STATE["interp"], _STATE["contracts"] = interp, contracts
     jobs = []
@@ -61,6 +62,8 @@ def run_contracts(interp, contracts, select, timeout_ms=10000, procs=None, prefi
         if not select(c):
             continue
         for ii in range(len(c.instances)):
+            if tier == "quick" and getattr(c.instances[ii], "tier", "quick") == "thorough":
+                continue
             jobs.append((ci, ii, timeout_ms, prefix, ob_filter))
     procs = procs or min(16, os.cpu_count() or 4)
     if not jobs:
